@@ -48,6 +48,11 @@ type vfC10Case struct {
 	// these options ("rr" | "dc" | "rack", + "-shuffle", + "-nonlocal"), route queries through it and read
 	// the map the policy holds AFTERWARDS ("" = not done)
 	Pol string `json:"pol"`
+	// Fault (policy cases only): after the map was built and read, an update that cannot be carried out:
+	// "local" / "unknown-class" / "bad-rf" (ALTER KEYSPACE to a placement the driver cannot compute, then
+	// KeyspaceChanged), "fetch-fail-ks" (the keyspace metadata lookup fails during KeyspaceChanged),
+	// "fetch-remove" (it fails while the highest-numbered node is removed).  Look3 = lookups afterwards.
+	Fault string `json:"fault"`
 }
 
 type vfC10Entry struct {
@@ -70,8 +75,10 @@ type vfC10Vector struct {
 	Down   []int        `json:"down"`
 	Spread string       `json:"spread"`
 	Pol    string       `json:"pol"`
-	Map2   []vfC10Entry `json:"map2"`   // the replica map a token aware policy holds after routing queries
-	Look2  []vfC10Entry `json:"look2"`  // ... and its lookups
+	Map2   []vfC10Entry `json:"map2"`  // the replica map a token aware policy holds after routing queries
+	Look2  []vfC10Entry `json:"look2"` // ... and its lookups
+	Fault  string       `json:"fault"`
+	Look3  []vfC10Entry `json:"look3"`  // lookups in the policy's replica map after the faulty update
 	PClass string       `json:"pclass"` // none | mapsize | map-other | lookup | build | policy
 	PMsg   string       `json:"pmsg"`
 	Map    []vfC10Entry `json:"map"`
@@ -263,8 +270,8 @@ func vfC10Ids(idx map[*HostInfo]int, hs []*HostInfo) []int {
 // vfC10Run executes one case on the real code for one partitioner.
 func vfC10Run(c *vfC10Case, part string) (v vfC10Vector) {
 	v = vfC10Vector{ID: c.ID, Part: part, Form: c.Form, Ring: c.Ring, Dc: c.Dc, Rack: c.Rack, Strat: c.Strat,
-		RfDc: c.RfDc, RfN: c.RfN, Tokens: c.Tokens, Down: append([]int{}, c.Down...), Spread: c.Spread, Pol: c.Pol,
-		PClass: "none", Map: []vfC10Entry{}, Look: []vfC10Entry{}, Map2: []vfC10Entry{}, Look2: []vfC10Entry{}}
+		RfDc: c.RfDc, RfN: c.RfN, Tokens: c.Tokens, Down: append([]int{}, c.Down...), Spread: c.Spread, Pol: c.Pol, Fault: c.Fault,
+		PClass: "none", Map: []vfC10Entry{}, Look: []vfC10Entry{}, Map2: []vfC10Entry{}, Look2: []vfC10Entry{}, Look3: []vfC10Entry{}}
 	stage := "build"
 	defer func() {
 		if r := recover(); r != nil {
@@ -277,7 +284,7 @@ func vfC10Run(c *vfC10Case, part string) (v vfC10Vector) {
 			default:
 				v.PClass = stage
 			}
-			v.Map, v.Look, v.Map2, v.Look2 = []vfC10Entry{}, []vfC10Entry{}, []vfC10Entry{}, []vfC10Entry{}
+			v.Map, v.Look, v.Map2, v.Look2, v.Look3 = []vfC10Entry{}, []vfC10Entry{}, []vfC10Entry{}, []vfC10Entry{}, []vfC10Entry{}
 		}
 	}()
 	tm := vfC10TokMap(c, part)
@@ -319,7 +326,10 @@ func vfC10Run(c *vfC10Case, part string) (v vfC10Vector) {
 	}
 	if c.Pol != "" {
 		stage = "policy"
-		v.Map2, v.Look2 = vfC10ViaPolicy(c, part, tm, abs)
+		v.Map2, v.Look2, v.Look3 = vfC10ViaPolicy(c, part, tm, abs)
+		if c.Fault == "" || (c.Fault == "fetch-remove" && len(c.Dc) < 2) {
+			v.Fault = ""
+		}
 	}
 	return v
 }
@@ -348,8 +358,8 @@ func (q *vfC10Query) Context() context.Context                               { r
 // routes queries through it (Pick, iterator drained) and returns the replica map the policy holds
 // AFTER that, with its lookups.  "The replicas the driver associates with a token" must not depend on
 // which queries were routed before.
-func vfC10ViaPolicy(c *vfC10Case, part string, tm func(int) string, abs map[string]int) (m, look []vfC10Entry) {
-	m, look = []vfC10Entry{}, []vfC10Entry{}
+func vfC10ViaPolicy(c *vfC10Case, part string, tm func(int) string, abs map[string]int) (m, look, look3 []vfC10Entry) {
+	m, look, look3 = []vfC10Entry{}, []vfC10Entry{}, []vfC10Entry{}
 	hosts := vfC10Hosts(c, part)
 	idx := make(map[*HostInfo]int, len(hosts))
 	for i, h := range hosts {
@@ -374,10 +384,14 @@ func vfC10ViaPolicy(c *vfC10Case, part string, tm func(int) string, abs map[stri
 	pol := TokenAwareHostPolicy(base, opts...)
 	ta := pol.(*tokenAwareHostPolicy)
 	ks := vfC10Keyspace(c)
+	fetchFails := false
 	ta.getKeyspaceName = func() string { return "vfks" }
 	ta.getKeyspaceMetadata = func(name string) (*KeyspaceMetadata, error) {
 		if name != "vfks" {
 			return nil, errors.New("vf: unknown keyspace")
+		}
+		if fetchFails {
+			return nil, errors.New("vf: keyspace metadata query failed")
 		}
 		return ks, nil
 	}
@@ -436,7 +450,47 @@ func vfC10ViaPolicy(c *vfC10Case, part string, tm func(int) string, abs map[stri
 		}
 		look = append(look, vfC10Entry{T: l[0], Hosts: vfC10Ids(idx, hs)})
 	}
-	return m, look
+	// an update that cannot be carried out: afterwards the policy must not go on associating the
+	// replicas of the old ring / the old replication setting with tokens
+	switch c.Fault {
+	case "":
+		return m, look, look3
+	case "local", "unknown-class", "bad-rf":
+		alt := &KeyspaceMetadata{Name: "vfks", StrategyOptions: map[string]interface{}{}}
+		switch c.Fault {
+		case "local":
+			alt.StrategyClass = "org.apache.cassandra.locator.LocalStrategy"
+		case "unknown-class":
+			alt.StrategyClass = "com.example.locator.CustomReplicationStrategy"
+			alt.StrategyOptions["replication_factor"] = "2"
+		default:
+			alt.StrategyClass = "org.apache.cassandra.locator.SimpleStrategy"
+			alt.StrategyOptions["replication_factor"] = "3/1"
+		}
+		alt.StrategyOptions["class"] = alt.StrategyClass
+		ks = alt
+		pol.KeyspaceChanged(KeyspaceUpdateEvent{Keyspace: "vfks", Change: "UPDATED"})
+	case "fetch-fail-ks":
+		fetchFails = true
+		pol.KeyspaceChanged(KeyspaceUpdateEvent{Keyspace: "vfks", Change: "UPDATED"})
+	case "fetch-remove":
+		if len(hosts) < 2 {
+			return m, look, look3
+		}
+		fetchFails = true
+		pol.RemoveHost(hosts[len(hosts)-1])
+	default:
+		panic("vfC10ViaPolicy: fault " + c.Fault)
+	}
+	meta = ta.getMetadataReadOnly()
+	for _, l := range c.Look {
+		var hs []*HostInfo
+		if ht := meta.replicas["vfks"].replicasFor(meta.tokenRing.partitioner.ParseString(tm(l[0]))); ht != nil {
+			hs = ht.hosts
+		}
+		look3 = append(look3, vfC10Entry{T: l[0], Hosts: vfC10Ids(idx, hs)})
+	}
+	return m, look, look3
 }
 
 func vfC10Env(t *testing.T, name string) string {
@@ -581,6 +635,9 @@ func vfC10RandomCase(rnd *rand.Rand, id, maxNodes, maxVnodes int) *vfC10Case {
 	c.Spread = []string{"compact", "full", "edge", "zero"}[rnd.Intn(4)]
 	if rnd.Intn(3) == 0 {
 		c.Pol = []string{"rr", "dc", "rack"}[rnd.Intn(3)] + []string{"", "-shuffle"}[rnd.Intn(2)] + []string{"", "-nonlocal"}[rnd.Intn(2)]
+	}
+	if c.Pol != "" {
+		c.Fault = []string{"", "local", "unknown-class", "bad-rf", "fetch-fail-ks", "fetch-remove"}[rnd.Intn(6)]
 	}
 	// some nodes are down while the ring is built
 	c.Down = []int{}
